@@ -76,12 +76,14 @@ def run(ctx):
         extraction_failed = str(e)
         entries = []
     ctx.coverage["translator"] = {k: v for k, v in report.items() if k != "modules"}
-    pr = core.prove("C03")
+    pr = core.prove("C03", extra_modules=["MC.Props.C03NoPanic"])
     core.proof_coverage(ctx, pr, "lake build MC.Props.C03 && lake env lean build/audit_C03.lean (#print axioms)",
                         ["modelled, not verified: find_operator/compute_type_from_position, is_nary, reduce_stack(_one_time), shift_stack and the loop of canonicalize_mrows_in_mrow for rows of plain tokens "
                          "(MC.Model.Rows); the operator dictionary and the ad-hoc operator infos are regenerated from src/operator-info.in and src/canonicalize.rs",
                          "outside the model: function-name guessing, mixed fractions, implied commas, chemistry, trig arguments, vertical-bar disambiguation, form attributes, embellished operators; "
-                         "those rows are checked by the Spec checker on the implementation's output only"])
+                         "those rows are checked by the Spec checker on the implementation's output only",
+                         "parseRow_no_panic (MC/Props/C03NoPanic.lean): none of the asserts / unwraps of the row parser is reachable for ANY token sequence without the two right quotation "
+                         "marks as mo (they have priority 10, below every other fence; the library converts them to primes before parsing, which the check monitors on the implementation)"])
     core.need_harness(ctx)
     core.need_driver(ctx)
     im, mo = core.impl(), core.model()
@@ -191,6 +193,18 @@ def run(ctx):
                 # (compute_type_from_position), also where only a prefix operator can stand; that can only break clauses (a)/(b)
                 cls = "prefix-chain" if prefix_chain(r, opsets) and all(v.startswith(("(a)", "(b)")) for v in rc["v"]) else "plain"
                 oracle_fail.append({"why": why, "class": cls, "row": r, "tree": checks[cidx.index(idx)]["tree"], "lines": pre + [reqs[idx]]})
+    # hypothesis of parseRow_no_panic: the right quotation marks never reach the row parser as mo tokens (an earlier pass makes them primes).
+    # The model panics on these rows; the library must not.
+    quote_rows = [[("mo", "("), ("mo", "’")], [("mo", "("), ("mo", "”")], [("mi", "a"), ("mo", "("), ("mi", "b"), ("mo", "”"), ("mi", "c")], [("mo", "["), ("mo", "("), ("mo", "’"), ("mo", "]")],
+                  [("mo", "’")], [("mo", "”"), ("mo", ")")], [("mo", "("), ("mo", "’"), ("mo", "’"), ("mo", ")")], [("mo", "{"), ("mi", "x"), ("mo", "”"), ("mo", "’")],
+                  [("mo", "‘"), ("mi", "x"), ("mo", "’")], [("mo", "“"), ("mo", "("), ("mo", "”")], [("mo", "-"), ("mo", "("), ("mo", "’"), ("mn", "2")]]
+    q_reqs = [{"op": "set_mathml", "xml": "<math><mrow>" + "".join(f"<{k}>{mml.esc_text(v)}</{k}>" for k, v in r) + "</mrow></math>"} for r in quote_rows]
+    q_rep = im.run([{"op": "session"}] + pre + q_reqs, prelude=pre)[1 + len(pre):]
+    q_model_panics = sum(1 for rm_ in mo.run([{"op": "parse_row", "tokens": [[k, v] for k, v in r]} for r in quote_rows]) if rm_.get("r") == "panic")
+    for r, q, ri in zip(quote_rows, q_reqs, q_rep):
+        if ri.get("r") in ("panic", "abort", "timeout"):
+            panics.append({"row": r, "reply": ri, "lines": pre + [q]})
+            oracle_fail.append({"why": "a right quotation mark reaches the row parser and crashes it (hypothesis of parseRow_no_panic)", "class": "plain", "row": r, "tree": None, "reply": ri, "lines": pre + [q]})
     # vertical bars: a matched pair encloses exactly its contents
     def flat(t):
         return [t] if isinstance(t, str) else [x for k in (t if isinstance(t, list) else t.get("kids", [])) for x in flat(k)]
@@ -234,6 +248,8 @@ def run(ctx):
     mo.close()
     ctx.coverage.update({
         "vertical_bar_rows": len(bar_cases), "vertical_bar_failures": len(bar_fail),
+        "no_panic_theorem": {"theorem": "MC.Props.C03NP.parseRow_no_panic", "hypothesis": "no mo token is U+2019 or U+201D", "rows_with_those_tokens_tried_on_the_library": len(quote_rows),
+                             "of_which_the_model_panics": q_model_panics, "library_crashes": sum(1 for ri in q_rep if ri.get("r") in ("panic", "abort", "timeout"))},
         "evaluations": len(rows), "distinct_nontrivial": len(nontriv),
         "rule": "table echo (every sampled dictionary entry and form between two reference operators) + generated rows of length 1-40 over all dictionary operators outside the guard list "
                 "(prefix/postfix positions, operator runs, implied multiplication, nested and unbalanced fences); tree shape compared with the model; Spec checker on every output. "
